@@ -477,7 +477,7 @@ func runC14(c *Ctx) {
 				s = regexp.MustCompile(`\b`+regexp.QuoteMeta(fd.Recv.List[0].Names[0].Name)+`\.`).ReplaceAllString(s, "$$.")
 			}
 		}
-		if hasAll(s, "$.sortedElements[i]=$.sortedElements[(i+1)]", "$.sortedElements[i].index--", "$.sortedElements=$.sortedElements[:(len($.sortedElements)-1)]") {
+		if hasAll(s, "$.sortedElements[i]=$.sortedElements[(i+1)]", "$.sortedElements[i].index--", "$.sortedElements=$.sortedElements[:(len($.sortedElements)-1)]") || deleteSortedBySplice(p, pkg, fd) {
 			r.Pass("sorted/slot-index-coupled", pkg+".sortedSet.deleteSorted", p.posStr(fd.Pos()), "closing the gap shifts slots and decrements the shifted elements' indices")
 		} else {
 			r.Fail("sorted/slot-index-coupled", pkg+".sortedSet.deleteSorted", p.posStr(fd.Pos()), "deleting must shift the following slots and decrement their indices: "+s)
@@ -855,4 +855,86 @@ func forwardingSubscription(info *types.Info, hd *ast.FuncDecl) (inIdx, fnIdx in
 		return true
 	})
 	return inIdx, fnIdx, nOn == 1 && inIdx >= 0 && fnIdx >= 0
+}
+
+// deleteSortedBySplice recognises the library form of closing the gap: the slot of the deleted
+// element is cut out with slices.Delete(S, k, k+1) or append(S[:k], S[k+1:]...), and afterwards a
+// loop over exactly S[k:] decrements the index of every element it visits (the elements are
+// pointers, so the range value denotes the stored element).
+func deleteSortedBySplice(p *Prog, pkg string, fd *ast.FuncDecl) bool {
+	info := p.Pkg(pkg).TypesInfo
+	df := newFuncCFG(p, info, fd.Body, pkg+".sortedSet.deleteSorted/splice")
+	isS := func(e ast.Expr) bool { return fieldSel(info, e, "sortedElements") }
+	var cutPt *Point
+	cutKey := ""
+	nCuts := 0
+	for _, pt := range df.Find(func(n ast.Node) bool {
+		as, ok := n.(*ast.AssignStmt)
+		return ok && len(as.Lhs) == 1 && len(as.Rhs) == 1 && as.Tok == token.ASSIGN && isS(as.Lhs[0])
+	}) {
+		as := df.nodeAt(pt).(*ast.AssignStmt)
+		cl, ok := ast.Unparen(as.Rhs[0]).(*ast.CallExpr)
+		if !ok {
+			continue
+		}
+		k := ""
+		switch {
+		case qualifiedCallee(info, cl) == "slices.Delete" && len(cl.Args) == 3 && isS(cl.Args[0]):
+			lo, hi := df.KeyAt(cl.Args[1], pt), df.KeyAt(cl.Args[2], pt)
+			if hi == "("+lo+"+1)" {
+				k = lo
+			}
+		case rawKey(cl.Fun) == "append" && len(cl.Args) == 2 && cl.Ellipsis.IsValid():
+			a, okA := ast.Unparen(cl.Args[0]).(*ast.SliceExpr)
+			b, okB := ast.Unparen(cl.Args[1]).(*ast.SliceExpr)
+			if okA && okB && isS(a.X) && isS(b.X) && a.Low == nil && a.High != nil && a.Max == nil && b.Low != nil && b.High == nil {
+				lo, hi := df.KeyAt(a.High, pt), df.KeyAt(b.Low, pt)
+				if hi == "("+lo+"+1)" {
+					k = lo
+				}
+			}
+		}
+		if k != "" && strings.HasSuffix(k, ".index") {
+			q := pt
+			cutPt, cutKey = &q, k
+			nCuts++
+		}
+	}
+	if nCuts != 1 {
+		return false
+	}
+	nLoops := 0
+	for _, l := range df.Loops() {
+		rs, ok := l.Stmt.(*ast.RangeStmt)
+		if !ok || rs.Value == nil || len(rs.Body.List) != 1 {
+			continue
+		}
+		se, ok := ast.Unparen(rs.X).(*ast.SliceExpr)
+		if !ok || !isS(se.X) || se.Low == nil || se.High != nil {
+			continue
+		}
+		dec, ok := rs.Body.List[0].(*ast.IncDecStmt)
+		if !ok || dec.Tok != token.DEC {
+			continue
+		}
+		sel, ok := ast.Unparen(dec.X).(*ast.SelectorExpr)
+		if !ok || sel.Sel.Name != "index" || objOfIdent(info, sel.X) == nil || objOfIdent(info, sel.X) != objOfIdent(info, rs.Value) {
+			continue
+		}
+		if _, isPtr := info.TypeOf(rs.Value).(*types.Pointer); !isPtr {
+			continue
+		}
+		if df.KeyAt(se.Low, Point{l.Head, 0}) != cutKey {
+			continue
+		}
+		// the loop runs after the cut, on every path
+		if _, after := df.reachBlock(*cutPt, nil, func(b *cfg.Block) bool { return b == l.Head }, false); !after {
+			continue
+		}
+		if _, skip := df.reachBlock(*cutPt, &searchOpts{AvoidEdge: func(e Edge) bool { return e.From.Succs[e.Succ] == l.Head }}, func(*cfg.Block) bool { return false }); skip {
+			continue
+		}
+		nLoops++
+	}
+	return nLoops == 1
 }
